@@ -801,6 +801,43 @@ impl Node {
         self.paths_rec(&mut cur, &mut out, cap);
         out
     }
+    /// The `n` last root-to-node paths in document order (children of the last members), or None for scalars.
+    pub fn last_paths(&self, n: usize) -> Option<Vec<Vec<PathElem>>> {
+        let mut out = Vec::new();
+        let mut cur = Vec::new();
+        let mut node = self;
+        loop {
+            match &node.kind {
+                Kind::Arr(v) if !v.is_empty() => {
+                    for i in v.len().saturating_sub(n)..v.len() {
+                        let mut q = cur.clone();
+                        q.push(PathElem::Idx(i));
+                        out.push(q);
+                    }
+                    cur.push(PathElem::Idx(v.len() - 1));
+                    node = &v[v.len() - 1];
+                }
+                Kind::Obj(v) if !v.is_empty() => {
+                    for (k, _) in &v[v.len().saturating_sub(n)..] {
+                        let mut q = cur.clone();
+                        q.push(PathElem::Key(k.text.clone()));
+                        out.push(q);
+                    }
+                    cur.push(PathElem::Key(v[v.len() - 1].0.text.clone()));
+                    node = &v[v.len() - 1].1;
+                }
+                _ => break,
+            }
+            if cur.len() > 6 {
+                break;
+            }
+        }
+        if out.is_empty() {
+            None
+        } else {
+            Some(out)
+        }
+    }
     fn paths_rec(&self, cur: &mut Vec<PathElem>, out: &mut Vec<Vec<PathElem>>, cap: usize) {
         if out.len() >= cap {
             return;
